@@ -39,9 +39,14 @@ RULE = (
     'and all i,j; from_sequences with splits [a,n-a] for a in {0,1,n//2,n} and '
     '[n//3,0,n-n//3] (plain and .shard(i,2)); ShardedIterable(list): plain, .shard(i,k) '
     'for k in 1..4} x ALL cut lists of length 1..3 with c1+..+cg <= len(stream) x ALL '
-    'restore-API sequences over {root.from_state, current_ds.from_state, '
-    'root.iterate().from_state, current_iterator.from_state}; the state transport '
-    '(none / deepcopy / pickle) rotates deterministically with the case. Not exhaustive: '
+    'sequences of the two restore APIs (data-source from_state / iterator from_state) per '
+    'generation. The receiver of from_state (root object vs. current sharded / restored '
+    'object, i.e. root.from_state, current_ds.from_state, root.iterate().from_state, '
+    'current_iterator.from_state) is fully crossed (4^g) for g <= 2 in quick and for '
+    'g <= 3 in thorough; for g = 3 in quick it alternates between (root ds, current '
+    'iterator) and (current ds, root iterator) with the cut list (2^3 sequences each). '
+    'The state transport (none / deepcopy / pickle) rotates deterministically with the '
+    'case. Not exhaustive: '
     'other containers (rotating), checkpoints taken after StopIteration, ignore_error '
     'sources (all single and pair failing-index sets for n <= 6/8, one cut), '
     'MultiplexIterator over 2-3 sources, pipelines (7 shapes x 2 aggregator modes over a '
@@ -106,6 +111,12 @@ K_THR = 'threaded-restore-loses-prefetched-elements'
 K_IGN = 'restore-after-ignored-source-error-repeats-element'
 K_UP = 'chained-restore-upstream-stage-aggregate-frozen-at-checkpoint'
 K_RET = 'restored-iterator-returns-no-aggregate-result'
+K_DIT = 'data-iterator-state-before-first-next-forgets-restored-position'
+
+
+def _sample(ctx, case, nontrivial):
+  if nontrivial and len(ctx.samples) < 2:
+    ctx.sample(case)
 
 
 def _viol(ctx, kind, case, detail, mechanism):
@@ -136,6 +147,10 @@ def _classify(cfg, cuts, r, got, want_all, pos, c_req, fmap=None, prefix=''):
     j = cuts[r - 1]
     if j != pos and got == window(j):
       return K_REL
+  if cfg['kind'] == 'iter' and r >= 2 and cuts[r - 1] == 0:
+    # checkpoint taken from a restored DataIterator that delivered nothing yet
+    if pos != 0 and got == window(0):
+      return K_DIT
   if seq_family and fail and r == 1:
     positions = L.model_positions(cfg)
     if 'make_shard' in cfg:
@@ -211,8 +226,10 @@ def check_src_case(ctx, case):
     _viol(ctx, 'exception', case, {'where': 'uninterrupted', 'err': repr(e)},
           f'{cls}-uninterrupted-iteration-raises')
     return
+  nontrivial = _nontrivial(cuts, len(want))
   ctx.case(('src', L.cfg_desc(cfg), tuple(cuts), tuple(apis), tuple(xfs),
-            past_end), _nontrivial(cuts, len(want)))
+            past_end), nontrivial)
+  _sample(ctx, case, nontrivial and len(cuts) >= 2)
   if full != want:
     ctx.inconclusive_case('uninterrupted list(ds) differs from the list model',
                           case)
@@ -244,7 +261,7 @@ def check_src_case(ctx, case):
         if extra:
           _viol(ctx, 'elements', case,
                 {'restore': r, 'position': pos, 'got_extra': L.norm(extra)},
-                _classify(cfg, cuts, r, L.norm(extra), want, pos, None))
+                _classify(cfg, cuts, r, L.norm(extra), want, pos, 1))
           return
       xf = xfs[r_next - 1]
       state = L.transport(it.state, xf)
@@ -281,6 +298,7 @@ def check_mux_case(ctx, case):
     return
   ctx.case(('mux', tuple(L.cfg_desc(c) for c in cfgs), tuple(cuts),
             tuple(xfs)), _nontrivial(cuts, len(want)))
+  _sample(ctx, case, _nontrivial(cuts, len(want)))
   if full != want:
     ctx.inconclusive_case('uninterrupted MultiplexIterator differs from model',
                           case)
@@ -288,7 +306,19 @@ def check_mux_case(ctx, case):
   ctx.count('multiplex_checks')
   pos = 0
   r = 0
-  gen_key = lambda: '1' if r <= 1 else '2+'
+  all_iter = all(c['kind'] == 'iter' for c in cfgs)
+
+  def gen_key():
+    return '1' if r <= 1 else '2+'
+
+  def mux_key(symptom, got):
+    if (all_iter and r >= 2 and cuts[r - 1] == 0 and got
+        and got[0] in want[:pos]):
+      # a DataIterator restored at generation r-1, not advanced since, whose
+      # state was captured again: it restarts from the beginning (repeats).
+      return K_DIT
+    return f'multiplex-restore-gen{gen_key()}-{symptom}'
+
   try:
     it = iter_utils.MultiplexIterator(data_sources=curs)
     for r_next, c in enumerate(cuts, start=1):
@@ -297,7 +327,7 @@ def check_mux_case(ctx, case):
         _viol(ctx, 'elements', case,
               {'restore': r, 'position': pos, 'got': seg,
                'want': want[pos:pos + c]},
-              f'multiplex-restore-gen{gen_key()}-segment-differs')
+              mux_key('segment-differs', seg))
         return
       pos += c
       state = L.transport(it.state, xfs[r_next - 1])
@@ -311,7 +341,7 @@ def check_mux_case(ctx, case):
   if rest != want[pos:]:
     _viol(ctx, 'elements', case,
           {'restore': r, 'position': pos, 'got': rest, 'want': want[pos:]},
-          f'multiplex-restore-gen{gen_key()}-remainder-differs')
+          mux_key('remainder-differs', rest))
 
 
 # ---------------------------------------------------------------------------
@@ -361,6 +391,7 @@ def check_pipe_case(ctx, case):
   ctx.case(('pipe', L.cfg_desc(cfg), shape, aggmode, tuple(cuts), tuple(xfs),
             tuple(vias), tuple(make_shard or ()), cont_orig),
            _nontrivial(cuts, len(outs)))
+  _sample(ctx, case, _nontrivial(cuts, len(outs)))
   if full != outs or agg0 != aggs:
     ctx.inconclusive_case('uninterrupted pipeline run differs from the model',
                           case)
@@ -535,6 +566,7 @@ def check_thread_case(ctx, case):
   ctx.case(('thr', L.cfg_desc(cfg), shape, case['agg'], k, c, case['dseed'],
             case.get('pause_ms', 0), case.get('xf', 'none')),
            0 < c < len(outs))
+  _sample(ctx, case, 0 < c < len(outs))
   done, res, exc = L.run_with_watchdog(lambda: _thread_work(case), WATCHDOG_S)
   if not done:
     ctx.inconclusive_case('watchdog: threaded case did not finish in 30 s', case)
@@ -663,23 +695,28 @@ def src_configs_rotating(n):
   return cfgs
 
 
-def _case_count(length, max_g, napis):
+def _case_count(length, max_g, napis, full3=False):
   total = 0
   for g in range(1, max_g + 1):
     # number of (c1..cg) with sum <= length = C(length+g, g)
     num = 1
     for t in range(1, g + 1):
       num = num * (length + t) // t
-    total += num * napis ** g
+    total += num * (napis if (g < 3 or napis < 4 or full3) else 2) ** g
   return total
 
 
-def run_src_cfg(ctx, cfg, max_g, apis=APIS):
+def run_src_cfg(ctx, cfg, max_g, apis=APIS, full3=False):
   length = len(L.model_stream(cfg))
   idx = 0
-  for cuts in cut_lists(length, max_g):
+  for ci, cuts in enumerate(cut_lists(length, max_g)):
     g = len(cuts)
-    for api_seq in itertools.product(apis, repeat=g):
+    pool = apis
+    if g >= 3 and len(apis) == 4 and not full3:
+      # 3 checkpoints: both API kinds (ds / iterator) fully crossed; the receiver
+      # (root vs current object) alternates with the cut list.
+      pool = (('root.ds', 'cur.it'), ('cur.ds', 'root.it'))[ci % 2]
+    for api_seq in itertools.product(pool, repeat=g):
       idx += 1
       xf = [XFS[_rot(idx, r, sum(cuts)) % 3] for r in range(g)]
       check_src_case(ctx, {'part': 'src', 'src': cfg, 'cuts': cuts,
@@ -919,8 +956,9 @@ def plan(tier, seed):
   items, weights = [], []
   for n in range(0, 11):
     for cfg in src_configs_exhaustive(n):
-      items.append({'cfg': cfg, 'max_g': 3})
-      weights.append(_case_count(len(L.model_stream(cfg)), 3, len(APIS)) + 50)
+      items.append({'cfg': cfg, 'max_g': 3, 'full3': thorough})
+      weights.append(
+          _case_count(len(L.model_stream(cfg)), 3, len(APIS), thorough) + 50)
     for cfg in src_configs_rotating(n):
       items.append({'cfg': cfg, 'max_g': 3, 'apis': ['root.ds', 'cur.it']})
       weights.append(_case_count(len(L.model_stream(cfg)), 3, 2) + 50)
@@ -995,7 +1033,7 @@ def run_chunk(ctx, spec):
   if mode == 'src':
     for item in spec['items']:
       run_src_cfg(ctx, item['cfg'], item['max_g'],
-                  tuple(item.get('apis') or APIS))
+                  tuple(item.get('apis') or APIS), bool(item.get('full3')))
   elif mode == 'fail':
     for cfg in fail_configs(spec['n']):
       length = len(L.model_stream(cfg))
@@ -1027,10 +1065,6 @@ def run_chunk(ctx, spec):
     _run_random(ctx, spec)
   else:
     raise ValueError(mode)
-  if ctx.evaluations and not ctx.samples:
-    ctx.sample({'mode': mode,
-                'spec': {k: v for k, v in spec.items()
-                         if k not in ('tier', 'items')}})
 
 
 def run_case(ctx, case):
